@@ -525,6 +525,7 @@ def generate(repo, exclude=None):
             CUSTOM_PROOFS.update(proofs)
     except Exception as e:
         report["rand_core"] = dict(report.get("rand_core") or {}, error=repr(e))
+    unmodelled_impls(repo, report, {t[0] for t in theorems})
     digest = hashlib.sha256("\n".join(parts).encode()).hexdigest()[:16]
     out = [HEADER.format(digest=digest)] + parts + ["\nnamespace ExtTie"]
     for name, stmt, props, fn in theorems:
@@ -537,6 +538,31 @@ def generate(repo, exclude=None):
         out.append(f"theorem {name} : {stmt} := by" + (pr(name) if callable(pr) else f" {pr} Ext.{name}"))
     out.append("end ExtTie\nend Rngs\n")
     return "\n".join(out), report, theorems
+
+def unmodelled_impls(repo, report, stated):
+    """hand-written `Clone` / `PartialEq` of a type under the tie that no theorem speaks about (the source derives them, or has
+    none: a patch ADDED the impl).  What `clone()` returns and what `==` says is C10's subject, and a derived impl is the identity /
+    the field-wise comparison by construction; a hand-written one is a function like any other, and here it has neither a
+    translation nor a model counterpart: recorded as `unmodelled` (check.py: a broken obligation of C10; the sweep: not silent)."""
+    files = {}
+    for u, r in list(report.items()):
+        if isinstance(r, dict) and r.get("file") and str(r["file"]).endswith(".rs"):
+            files.setdefault(r["file"], set()).add(u)
+    for rel, names in files.items():
+        try:
+            f = rsfront.load(os.path.join(repo, rel))
+        except Exception:
+            continue
+        for trait, ty, fns, consts in f.impls:
+            t = (trait or "").split("::")[-1].split("<")[0]
+            if ty not in names or t not in ("Clone", "PartialEq"):
+                continue
+            r = report[ty]
+            for k, v in fns.items():
+                if v.body is None or f"{ty}.{k}" in stated or k in (r.get("skipped") or {}):
+                    continue
+                r.setdefault("unmodelled", {})[k] = (f"hand-written impl {t} for {ty}: no model counterpart, no theorem "
+                                                     f"(the pinned source {'derives it' if t == 'Clone' else 'has no such impl'})")
 
 def nested_fn(fn, name, macros):
     """a `fn name(..)` item declared inside the body of `fn`"""
